@@ -48,9 +48,14 @@ DecSigned(b, o, e) ==
     Ok(d.p, [alg |-> Some([hash |-> h.v, sign |-> s.v]), data |-> d.v]))))
 
 (* SignatureFormIffFlag *)
+(* "peek": a caller's content parser that takes one byte and reports the byte following it without consuming it (the content *)
+(* parser is called once, on the whole input: what it sees after its own value is the signature)                              *)
+DecPeekContent(b, o, e) ==
+  Bind(U8(b, o, e), LAMBDA x : Bind(U8(b, x.p, e), LAMBDA nx : Ok(x.p, [first |-> x.v, next |-> nx.v])))
 DecContentAndSignature(sub, ext, b, o, e) ==
   LET c == IF sub = "dh" THEN DecDhParams(b, o, e)
-           ELSE IF sub = "ecdh" THEN DecEcdhParams(b, o, e) ELSE DecEcParameters(b, o, e)
+           ELSE IF sub = "ecdh" THEN DecEcdhParams(b, o, e)
+           ELSE IF sub = "peek" THEN DecPeekContent(b, o, e) ELSE DecEcParameters(b, o, e)
   IN Bind(c, LAMBDA cv :
      Bind(IF ext THEN DecSigned(b, cv.p, e) ELSE DecSignedOld(b, cv.p, e), LAMBDA sg :
        Ok(sg.p, [content |-> cv.v, sig |-> sg.v])))
